@@ -27,7 +27,8 @@ func checkC10(c *an.Ctx) {
 		return
 	}
 	c.OK("C10.0", "runner roles", r.run.Pos(), "ok")
-	cc := p.Func("pkg/runner", "TaskCompiler", "CompileCommand")
+	ccr := resolveCmdCompiler(p)
+	cc := ccr.fn
 	if cc == nil {
 		c.Und("C10.0", "runner.(*TaskCompiler).CompileCommand", token.NoPos, "not found")
 		return
@@ -50,9 +51,15 @@ func checkC10(c *an.Ctx) {
 	}
 	// per caller: bind vars from that caller
 	local := chainCfg(p)
+	local.Leaf = func(v ssa.Value) (an.Chain, bool) {
+		if ccr.spec != nil && ccr.isRole(v, "vars") {
+			return an.Chain{{Kind: "param", Label: "param:vars"}}, true
+		}
+		return nil, false
+	}
 	for _, site := range compileCommandSites(c, r) {
 		key := an.Short(site.fn) + ":CompileCommand(" + site.kind + "):vars"
-		argChains := cfg.Chains(argOf(site.call, cc, "vars"))
+		argChains := cfg.Chains(ccr.arg1(site.call, "vars"))
 		base := local.Chains(varsStore.Val) // [TaskCompiler.variables < param:vars]
 		for _, b := range base {
 			for _, a := range argChains {
